@@ -119,11 +119,13 @@ def do_check(ctx, args, t0):
     undecided = []
     unit_of = {}
     for u in units:
+        ctx.breaks = []      # a unit may record extraction breaks of single functions here and still return the jobs of the others
         try:
             js = u.jobs(ctx)
         except ExtractionBreak as e:
             undecided.append('extraction break in unit %s: %s' % (u.__name__, e))
             continue
+        undecided += ['extraction break in unit %s: %s' % (u.__name__, b) for b in ctx.breaks]
         for j in js:
             j.unit = u.__name__.split('.')[-1]
             unit_of[j.name] = u
